@@ -137,16 +137,121 @@ func TestPoolLongRun(t *testing.T) {
 						}
 					}(g)
 				}
+				// meanwhile somebody logs the pool and its limiter (a status line, a %v in a log call)
+				stopFmt := make(chan struct{})
+				go func() {
+					for {
+						select {
+						case <-stopFmt:
+							return
+						default:
+							_ = fmt.Sprintf("%v | %v", p, dl)
+							time.Sleep(100 * time.Microsecond)
+						}
+					}
+				}()
 				close(start)
-				wg.Wait()
+				done := make(chan struct{})
+				go func() { wg.Wait(); close(done) }()
+				stuck := false
+				select {
+				case <-done:
+				case <-time.After(10 * time.Second):
+					stuck = true // the goroutines are left where they are; the history so far and the fact go to the acceptor
+				}
+				close(stopFmt)
 				w.write(J{"t": "reset", "trace": k, "kind": "genericpool-simple-" + []string{"fifo", "lifo", "random"}[oi], "limit": lim, "id": 0, "v": 0, "ok": true, "n": -1})
-				for _, e := range events {
+				mu.Lock()
+				evs := append([]J{}, events...)
+				mu.Unlock()
+				openCalls := map[any]bool{}
+				for _, e := range evs {
 					e["trace"] = k
 					w.write(e)
+					if e["t"] == "b" {
+						openCalls[e["id"]] = true
+					} else {
+						delete(openCalls, e["id"])
+					}
+				}
+				if stuck {
+					w.write(J{"t": "stuck", "trace": k, "id": 0, "kind": "", "v": len(openCalls), "ok": true, "n": -1})
 				}
 				k++
 			}
 		}
+	}
+	// somebody logs the pool and its limiter (%v) while it is busy, for a few hundred thousand acquire / release cycles. The
+	// busy phase is not recorded; what goes to the acceptor is whether it came to an end (a watchdog reports callers stuck
+	// with the capacity free) and a sequential probe of the pool afterwards.
+	for oi, ord := range orderings {
+		lim := 4
+		dl, _, err := newDelegate(lim, false)
+		if err != nil {
+			t.Fatal(err)
+		}
+		p, err := pool.NewPool(dl, ord, 64, 10*time.Second, nil, nil)
+		if err != nil {
+			t.Fatal(err)
+		}
+		stopFmt := make(chan struct{})
+		go func() {
+			for {
+				select {
+				case <-stopFmt:
+					return
+				default:
+					_ = fmt.Sprintf("%v | %v", p, dl)
+					time.Sleep(200 * time.Microsecond)
+				}
+			}
+		}()
+		var pending int64
+		var wg sync.WaitGroup
+		for g := 0; g < 12; g++ {
+			wg.Add(1)
+			go func() {
+				defer wg.Done()
+				for i := 0; i < 20000; i++ {
+					atomic.AddInt64(&pending, 1)
+					l, ok := p.Acquire(context.Background())
+					atomic.AddInt64(&pending, -1)
+					if ok && l != nil {
+						l.OnIgnore()
+					}
+				}
+			}()
+		}
+		done := make(chan struct{})
+		go func() { wg.Wait(); close(done) }()
+		stuck := false
+		select {
+		case <-done:
+		case <-time.After(20 * time.Second):
+			stuck = true
+		}
+		close(stopFmt)
+		w.write(J{"t": "reset", "trace": k, "kind": "genericpool-simple-" + []string{"fifo", "lifo", "random"}[oi] + "/logged-while-busy", "limit": lim, "id": 0, "v": 0, "ok": true, "n": -1})
+		if stuck {
+			w.write(J{"t": "stuck", "trace": k, "id": 0, "kind": "", "v": int(atomic.LoadInt64(&pending)), "ok": true, "n": -1})
+		} else {
+			var sq int64
+			var held []core.Listener
+			for i := 1; i <= lim; i++ {
+				sq++
+				w.write(J{"t": "b", "trace": k, "id": i, "kind": "acq", "v": 0, "ok": true, "n": -1, "seq": sq})
+				l, ok := p.Acquire(context.Background())
+				sq++
+				w.write(J{"t": "e", "trace": k, "id": i, "kind": "", "v": 0, "ok": ok && l != nil, "n": -1, "seq": sq})
+				if ok && l != nil {
+					held = append(held, l)
+				}
+			}
+			for _, l := range held {
+				l.OnIgnore()
+			}
+		}
+		k++
 	}
 	// the attack schedule of the weakened DefaultLimiterConc model, through the pools: caller 1 parked between the strategy's
 	// check and its increment, caller 2 started meanwhile (bounded wait: on this tree it waits for the limiter mutex), then
